@@ -8,6 +8,7 @@ import (
 	"os"
 	"sort"
 	"sync"
+	"sync/atomic"
 	"testing"
 	"testing/synctest"
 
@@ -71,6 +72,7 @@ type regSession struct {
 	rv         chan struct{}
 	rvN        int
 	rendezvous int
+	rvSpin     atomic.Int64
 	parked     map[string]chan struct{}
 	pending    map[int]context.CancelFunc
 	quit       chan struct{}
@@ -175,11 +177,24 @@ func (s *regSession) yield(point string, id int64) {
 			s.mu.Unlock()
 		} else {
 			w := s.rv
+			pk := fmt.Sprintf("rendezvous@%d", t)
+			s.parked[pk] = make(chan struct{}) // visible in the quiescence snapshot: this tunnel is mid-admission
 			s.mu.Unlock()
+			s.log.Emit("park", tr.E{"point": "rendezvous", "t": t})
 			select {
 			case <-w:
 			case <-s.quit:
 			}
+			s.mu.Lock()
+			delete(s.parked, pk)
+			s.mu.Unlock()
+			s.log.Emit("unpark", tr.E{"point": "rendezvous", "t": t})
+		}
+		// the goroutines of one group leave together: the one that was woken has to be scheduled first,
+		// so everybody spins (briefly, bounded) until the whole group is running
+		n := s.rvSpin.Add(1)
+		target := ((n-1)/int64(s.rendezvous) + 1) * int64(s.rendezvous)
+		for i := 0; s.rvSpin.Load() < target && i < 20000000; i++ {
 		}
 	}
 }
